@@ -21,10 +21,42 @@ Inductive ritem :=
 | RMod (items : list ritem)        (* inline module with a body *)
 | ROther.                          (* struct, enum, use, const, ... *)
 
+(* what may stand before the items of a source text, as far as the parser ENTRY POINT
+   syn::parse_file treats it specially *)
+Inductive pro :=
+| PBom             (* U+FEFF *)
+| PShebang         (* a line starting with #! whose next non-blank character is not [ *)
+| PInnerAttr       (* #![...] *)
+| PDocInner        (* //! ... *)
+| PBlank           (* blank line *)
+| PComment         (* // ... or /* ... */ *)
+| PFrontmatter.    (* a block between --- lines *)
+
 Inductive content :=
 | Parsed (items : list ritem)      (* syn::parse_file succeeds *)
 | Unparsable                       (* valid UTF-8, syn::parse_file fails *)
-| NotUtf8.                         (* std::fs::read_to_string fails *)
+| NotUtf8                          (* std::fs::read_to_string fails *)
+| Source (p : list pro) (items : list ritem).   (* valid UTF-8: these pieces, then items that parse *)
+
+(* syn::parse_file (syn 2, lib.rs): strip ONE leading BOM; if the text then starts with #! and
+   what follows is not [, cut the shebang line (the rest starts at its newline); hand the rest
+   to parse_str, whose lexer (proc-macro2 fallback) strips a BOM at the very start of ITS
+   input; after that only white space, comments and inner attributes may precede the items:
+   a later shebang, a later BOM and a frontmatter block are syntax errors *)
+Definition strip_bom (l : list pro) : list pro := match l with PBom :: r => r | _ => l end.
+Definition pro_trivia (x : pro) : bool :=
+  match x with PInnerAttr | PDocInner | PBlank | PComment => true | _ => false end.
+Definition parse_file_accepts (l : list pro) : bool :=
+  match strip_bom l with
+  | PShebang :: r => forallb pro_trivia r
+  | l1 => forallb pro_trivia (strip_bom l1)
+  end.
+(* what the match on syn::parse_file sees *)
+Definition resolve (c : content) : content :=
+  match c with
+  | Source p items => if parse_file_accepts p then Parsed items else Unparsable
+  | _ => c
+  end.
 
 (* what a symbolic link resolves to (the target may lie inside or outside the project path:
    the code only ever looks through the link) *)
@@ -44,13 +76,13 @@ Definition layout := list node.     (* the entries of the project root *)
    only contribute a component; links to directories and dangling links fail it too) ---- *)
 Fixpoint walk_node (dirs : list str) (n : node) : list (list str * content) :=
   match n with
-  | NFile name c => [(dirs ++ [name], c)]
+  | NFile name c => [(dirs ++ [name], resolve c)]
   | NDir name ch => flat_map (walk_node (dirs ++ [name])) ch
   | NLink name t =>
       (* WalkDir::new without follow_links yields the link itself and never descends into it;
          path.is_file() and read_to_string(path) follow the link: the entry counts exactly when
          it resolves to a regular file, under the NAME AND PLACE OF THE LINK *)
-      match t with LFile c => [(dirs ++ [name], c)] | LDir => [] | LDangling => [] end
+      match t with LFile c => [(dirs ++ [name], resolve c)] | LDir => [] | LDangling => [] end
   end.
 Definition walk_nodes (dirs : list str) (l : layout) : list (list str * content) :=
   flat_map (walk_node dirs) l.
@@ -93,6 +125,7 @@ Fixpoint load (root : str) (files : list (list str * content)) : list (list str 
       if accepted root p then
         match c with
         | NotUtf8 => load root r                   (* Failed to read ..., continue *)
+        | Source _ _ => load root r                (* never walked: walk resolves it *)
         | Unparsable => load root r                (* Failed to parse ..., continue *)
         | Parsed items => (p, items) :: load root r
         end
@@ -159,4 +192,29 @@ Fixpoint build_history (root : str) (st : option (list cmd)) (ls : list layout) 
   match ls with
   | [] => []
   | l :: r => let st' := build_run root st l in commands_ts st' :: build_history root st' r
+  end.
+
+(* ---- histories over both routes, forced or not ----
+   RCli = run_generate of the cargo-tauri-typegen binary: no command discovered -> early return,
+   NOTHING in the output directory is touched (an earlier commands.ts stays); force (--force
+   or "force": true) -> regenerate and save the cache; otherwise regenerate unless the cache
+   record matches and every output is present; the cache is saved after EVERY generation,
+   forced or not, so the record always describes the commands.ts next to it.
+   RBuild = BuildSystem::run_generation: the same, except that without commands the empty file
+   list makes finalize_generation remove commands.ts. *)
+Inductive route := RBuild | RCli.
+Record step := { s_route : route; s_force : bool; s_tree : layout }.
+Definition run_step (root : str) (s : step) (st : option (list cmd)) : option (list cmd) :=
+  match analyze root (s_tree s) with
+  | [] => match s_route s with RBuild => None | RCli => st end
+  | cs => if s_force s then Some cs
+          else match st with
+               | Some p => if cache_hit root p cs then Some p else Some cs
+               | None => Some cs
+               end
+  end.
+Fixpoint history (root : str) (st : option (list cmd)) (steps : list step) : list (list wrapper) :=
+  match steps with
+  | [] => []
+  | s :: r => let st' := run_step root s st in commands_ts st' :: history root st' r
   end.
